@@ -2,7 +2,7 @@ CONSTANTS
   Instances <- MCInstances
   DeviationSets = {{}}
   Emit = "registered"
-  MaxTokens = 6
+  MaxTokens = 5
   MaxCases = 3
   MaxDepth = 2
   MaxPaths = 2
